@@ -195,6 +195,9 @@ func (j *JSON) add(file sts.Hashed) {
 		existing.Time = marshal.NanoTime{Time: file.GetTime()}
 		existing.Meta = file.GetMeta()
 		existing.Hash = file.GetHash()
+		// A file is (re-)added because it is new or has changed, so whatever
+		// was confirmed before no longer applies to it
+		existing.Done = false
 		return
 	}
 	j.Files[file.GetName()] = &cacheFile{
